@@ -30,6 +30,7 @@ type witnessMeta struct {
 }
 
 type witnessResult struct {
+	Property string  `json:"property,omitempty"`
 	Name    string   `json:"name"`
 	Expect  string   `json:"expect"`
 	Outcome string   `json:"outcome"` // ok | missed | false-alarm | stale | error
@@ -243,6 +244,7 @@ func thorough(p *Program, pr *Property, findings []Finding, res *RunResult, extr
 func selftestMain(args []string) int {
 	prop := "all"
 	repo := "/repo"
+	jsonOut := ""
 	for i := 0; i+1 < len(args); i += 2 {
 		switch args[i] {
 		case "-prop":
@@ -251,6 +253,8 @@ func selftestMain(args []string) int {
 			repo = args[i+1]
 		case "-verif":
 			verifDir = args[i+1]
+		case "-json":
+			jsonOut = args[i+1]
 		}
 	}
 	var props []string
@@ -267,8 +271,17 @@ func selftestMain(args []string) int {
 		props = []string{prop}
 	}
 	bad := 0
+	var all []witnessResult
+	defer func() {
+		if jsonOut != "" {
+			b, _ := json.MarshalIndent(all, "", " ")
+			_ = os.WriteFile(jsonOut, b, 0o644)
+		}
+	}()
 	for _, pid := range props {
 		for _, w := range runWitnesses(pid, repo) {
+			w.Property = pid
+			all = append(all, w)
 			fmt.Printf("%-12s %-45s expect=%-6s fired=%v %s\n", w.Outcome, w.Name, w.Expect, w.Fired, w.Detail)
 			if w.Outcome != "ok" && w.Outcome != "stale" {
 				bad++
